@@ -237,6 +237,7 @@ def solved_passes(chk, rng):
         def width_model(self, cycle):
             if cycle:
                 return None
+            self.roll_pass.in_profile.temperature       # the model needs the temperature of the incoming profile: without it the solve fails here
             return target
         hf = owner.OutProfile.width(width_model)
         fs = RollPass.Profile.flow_stress(lambda self: 50e6)
@@ -249,6 +250,13 @@ def solved_passes(chk, rng):
                 if rp.roll.groove is not groove:
                     rp.roll.groove = groove
                 history.append({'gap': gap, 'groove_depth': groove.depth})
+                if step in (1, 3):
+                    # a solve that fails inside the width model (incoming profile without temperature); the input is then repaired and solved again
+                    try:
+                        rp.solve(Profile.round(diameter=30e-3, material="C45", length=1, flow_stress=50e6))
+                        return chk.fail('width', f"solving with an incoming profile without temperature did not fail ({where})", {'factor': f})
+                    except Exception:      # noqa
+                        history.append('a solve aborted inside the width model (incoming profile without temperature)')
                 try:
                     rp.solve(ip)
                 except Exception as e:      # noqa
@@ -273,6 +281,23 @@ def solved_passes(chk, rng):
         finally:
             hf.hook.remove_function(hf)
             fs.hook.remove_function(fs)
+
+
+def explicit_in_width(chk):
+    """by default the width of the outgoing profile is the usable width - whatever the incoming profile carries, an explicitly set `width` included"""
+    from pyroll.core import Roll, RollPass, Profile, CircularOvalGroove
+    g = CircularOvalGroove(depth=8e-3, r1=6e-3, r2=40e-3)
+    fs = RollPass.Profile.flow_stress(lambda self: 50e6)
+    try:
+        rp = RollPass(roll=Roll(groove=g, nominal_radius=160e-3, rotational_frequency=1), gap=2e-3)
+        out = rp.solve(Profile.round(diameter=30e-3, temperature=1473.15, strain=0, material="C45", length=1, width=30e-3))
+        w = out.cross_section.bounds[2] - out.cross_section.bounds[0]
+        chk.cov['evaluations'] += 1
+        if abs(w - g.usable_width) > 1e-9 * g.usable_width:
+            chk.fail('in-profile-explicit-width', f"oval pass without any width prescription, incoming Profile.round(diameter=0.03, width=0.03) (width set explicitly): the "
+                     f"outgoing profile is {w:.6g} wide, the usable width is {g.usable_width:.6g}", {'in_width': 30e-3})
+    finally:
+        fs.hook.remove_function(fs)
 
 
 def run(chk):
@@ -330,6 +355,8 @@ def run(chk):
             two_roll(chk, rng, 'SplineGroove', {'contour_points': pts}, gs)
     if not chk.failures:
         solved_passes(chk, rng)
+    if not chk.failures:
+        explicit_in_width(chk)
     chk.cov['distinct_nontrivial'] += built
     chk.sample({'groove': 'CircularOvalGroove', 'kwargs': {'depth': 5.05, 'r1': 7, 'r2': 33}, 'gap': 1.0, 'width': 60.0})
     chk.cov['rule'] = (f"{built} grooves (every class; pad angle 30 behind three-roll passes) x two gaps x seven prescribed widths (under-filled, filled, over-filled into the "
